@@ -180,7 +180,7 @@ class Ref:
         self.resolved[nid] = used
         if nid == self.prog['input']:
             kwargs.update(self.input_kwargs)
-        if node.get('start_of') and self.env.get(nid) is not None:
+        if node.get('start_of') and self.env.get(nid) is not None and (node.get('plan') or {}).get('use_ad', True):
             kwargs['additional_data'] = self.env[nid]
         if causes:
             res = ('fail', frozenset(causes))
@@ -261,6 +261,8 @@ class Ref:
         while out[0] == 'next' and it < mx:
             for n in sub:
                 self.memo.pop(n, None)
+                if n != dest:
+                    self.rec_iters.pop(n, None)     # nested subgraphs iterate again in every outer iteration
             self.env[start] = out[1]
             self.rec_epoch += 1
             out = self.eval_node(dest)
